@@ -188,6 +188,9 @@ def run(ck):
                             except Exception as e:
                                 ck.fail("raises:load_data:%s%s" % (ext, ":axis" if with_axis else ""), "load_data raised %r on a file written by save_data" % (e,), inp)
                                 continue
+                            if b2.data is None:
+                                ck.fail("values:%s%s" % (ext, ":axis" if with_axis else ""), "load_data returned without importing anything", inp, None, 0.0)
+                                continue
                             got = numpy.asarray(b2.data)
                             if got.size != d.size or not numpy.array_equal(got.ravel(), d.ravel()):
                                 dev = float(numpy.abs(got.ravel() - d.ravel()).max()) if got.size == d.size else None
@@ -217,7 +220,7 @@ def run(ck):
         from quantarhei.qm.propagators.statevectorevolution import StateVectorEvolution
         from quantarhei.qm.propagators.dmevolution import ReducedDensityMatrixEvolution
         for rep in range(reps):
-            nst = rng.choice([2, 3, 4]); ntm = rng.choice([1, 2, 5])
+            nst = rng.choice([2, 3, 4]) if rep % 2 else (4, 5, 6)[(rep // 2) % 3]; ntm = rng.choice([1, 2, 5])
             tam = TimeAxis(0.0, ntm, 1.0)
 
             def carriers():
@@ -372,11 +375,11 @@ def run(ck):
         # basis contexts of a COMPLEX Hermitian operator (inverse of the eigenvector matrix is its conjugate transpose, not its
         # transpose) for the two-index objects
         Hc_data = numpy.array([[0.0, 0.2 + 0.3j, 0.1j], [0.2 - 0.3j, 1.0, 0.25 - 0.4j], [-0.1j, 0.25 + 0.4j, 1.3]])
-        ccombos = [("cbasis-read", "none"), ("cbasis-read", "cbasis"), ("none", "cbasis"), ("cbasis", "none")]
+        ccombos = [("cbasis-read", "none"), ("cbasis-read", "cbasis"), ("none", "cbasis"), ("cbasis", "none"), ("basis-nested", "none"), ("basis-nested", "basis")]
         for rnd in range(nround):
             for name in names:
                 for (cs, cl) in combos + (ccombos if name in ("Hamiltonian", "Operator", "ReducedDensityMatrix") else []):
-                    if ck.quick and rng.random() < 0.45 and (cs, cl) != ("none", "none") and not cs.startswith("cbasis"):
+                    if ck.quick and rng.random() < 0.45 and (cs, cl) != ("none", "none") and not cs.startswith("cbasis") and cs != "basis-nested":
                         continue
                     pool, H = build_pool()
                     if cs.startswith("cbasis") or cl.startswith("cbasis"):
@@ -409,6 +412,13 @@ def run(ck):
                         elif cs == "units":
                             with energy_units("1/cm"):
                                 cp = do_save()
+                        elif cs == "basis-nested":
+                            # used (read) in an outer context, left alone in an inner one, saved while the inner one is open
+                            H_in = Hamiltonian(data=numpy.array([[0.0, 0.0, 0.0], [0.0, 0.7, -0.4], [0.0, -0.4, 2.1]]))
+                            with eigenbasis_of(H):
+                                observe(fn, obj)
+                                with eigenbasis_of(H_in):
+                                    cp = do_save()
                         else:
                             with eigenbasis_of(H):
                                 if cs == "basis-read":
@@ -446,7 +456,7 @@ def run(ck):
                         dev = float(numpy.abs(a - b).max()) / sc if a.size else 0.0
                         ck.resid("parcel round trip (relative)", dev)
                         if (exact and dev != 0.0) or dev > 1e-13:
-                            kk = "basis:saved-inside-context" if cs == "basis-read" else "values:parcel:%s:%s" % (key, cl)
+                            kk = "basis:saved-inside-context" if cs in ("basis-read", "basis-nested") else "values:parcel:%s:%s" % (key, cl)
                             ck.fail(kk, "observable `%s` of the loaded object differs from the saved one" % k, inp, dev, 0.0 if exact else 1e-13)
         # ---- axis values replaced by an import, then saved ----------------------------------------------------------------
         for via in ("file", "scopy"):
